@@ -16,9 +16,16 @@ def main():
     ap.add_argument("-j", type=int, default=None)
     ap.add_argument("-v", action="store_true")
     a = ap.parse_args()
+    import importlib
+
+    mod = importlib.import_module("props." + a.prop.lower())
+    seed = int(os.environ.get("VERIF_SEED", "0") or 0)
+    if hasattr(mod, "run_custom"):
+        if a.replay:
+            sys.exit(mod.replay_custom(a.replay))
+        sys.exit(mod.run_custom(a.tier, seed, only=a.only, verbose=a.v))
     if a.replay:
         sys.exit(engine.replay_file(a.prop, a.replay))
-    seed = int(os.environ.get("VERIF_SEED", "0") or 0)
     sys.exit(engine.run_property(a.prop, a.tier, seed, only=a.only, jobs=a.j, verbose=a.v))
 
 
